@@ -62,11 +62,6 @@ func monitor(rep *emit.Report, c *caseRun) {
 				pendingTarget = -1
 			}
 		}
-		if s.ev.Kind == "part" && !s.obs.Rejected && s.obs.Valid {
-			idx, err := w.Sch.ThresholdScheme.IndexOf(c.t.bytes[c.t.id(nil)])
-			_ = idx
-			_ = err
-		}
 		// C04: no emission for a round before its time on the node's own clock
 		for _, e := range s.obs.Emits {
 			if common.TimeOfRound(per, w.Genesis, e.Round) > e.Clock {
@@ -96,7 +91,21 @@ func monitor(rep *emit.Report, c *caseRun) {
 			if s.ev.Round > cur+1 && !s.obs.Rejected {
 				rep.Fail("C04-future-partial-accepted", "partial more than one round ahead of the clock was not refused", in)
 			}
-			if !s.obs.Rejected && s.obs.Valid && s.ev.Claim < w.Epochs[epoch].N && s.ev.Claim != w.Me {
+			// C03: a partial whose index no member holds, in any group the node has ever been given,
+			// never counts - however valid the share behind it is
+			// (a packet for a round that is already stored is dropped without being looked at)
+			if !s.obs.Rejected && s.ev.Round > s.obs.HeadBefore {
+				if idx, err := w.Sch.ThresholdScheme.IndexOf(s.obs.SigBytes); err == nil {
+					member := false
+					for _, e := range w.Epochs[:nEp] {
+						member = member || e.IsMember(idx)
+					}
+					if !member {
+						rep.Fail("C03-nonmember-index-partial-accepted", fmt.Sprintf("a partial carrying index %d, which no group member holds, was not refused", idx), in)
+					}
+				}
+			}
+			if !s.obs.Rejected && s.obs.Valid && w.Epochs[epoch].IsMember(s.ev.Claim) && s.ev.Claim != w.Me {
 				addContrib(s.obs.HeadBefore, int64(s.ev.Round), c.t.id(s.obs.PrevBytes), s.ev.Claim)
 			}
 		}
